@@ -16,7 +16,8 @@ MANIFEST = dict(
          "forget_reason, memory_bound over the three limits (chunks, bytes, SACKed intervals), sacked_limit, route_correct, "
          "flow_is_fold (per-flow state = Flow::process_packet folded over the sub-history routed to the flow, for every "
          "interleaving), per_flow_delivery (C06's refinement theorem composed with that fold: each data callback is handed "
-         "exactly the stream prefix up to the frontier), ignore_data, callback_not_set_path, trace_refines_reference_live. "
+         "exactly the stream prefix up to the frontier), ignore_data, callback_not_set_path, recovery_skips_hole, "
+         "trace_refines_reference_live. "
          "Tied to the code by differential correspondence on interleaved multi-connection IPv4/IPv6 captures (callback "
          "trace, find_stream, per-flow buffer counters and ACK-tracker state) under ASan/UBSan, and a reference-connection-"
          "table oracle (Lean, executable) evaluated on the implementation's own callback trace.",
@@ -24,7 +25,8 @@ MANIFEST = dict(
          "with -fno-access-control to lower the two private buffering limits; the SACKed-interval limit is a compile-time "
          "constant, read from the source by the check, reported by the harness and crossed by floods of limit+1 disjoint SACK "
          "blocks); what the application does in the new-stream callback (auto-cleanup, enable_ack_tracking per flow, use_sack, "
-         "ignore_*_data, no callback at all) is part of the modelled configuration; recovery mode is outside the model; "
+         "ignore_*_data, enable_recovery_mode, no callback at all) is part of the modelled configuration; what recovery mode does "
+         "to the data is compared model-vs-code only (no oracle clause of its own); "
          "generator coverage bounds what the tie sees.",
     technique="Lean 4 proof (invariants over packet histories, projection onto one connection, simulation between key "
               "functions, composition with the C06 / C19 theorems) + model/impl correspondence",
@@ -635,8 +637,9 @@ def run(chk):
         "addresses are modelled as big-endian naturals; std::array<uint8_t,16> comparison = numeric comparison",
         "std::map<StreamIdentifier,Stream> is an association list; cleanup_streams visits expired entries in operator< order",
         "what the application does to a stream happens inside the new-stream callback and is part of the configuration: auto-cleanup "
-        "off, Flow::enable_ack_tracking per flow, AckTracker::use_sack, ignore_client_data / ignore_server_data; either every "
-        "callback is installed or (nocb) no new-stream callback at all; recovery mode is never enabled",
+        "off, Flow::enable_ack_tracking per flow, AckTracker::use_sack, ignore_client_data / ignore_server_data, "
+        "enable_recovery_mode(window) (last, after the out-of-order callbacks); either every callback is installed or (nocb) "
+        "no new-stream callback at all",
         "DEFAULT_MAX_SACKED_INTERVALS is a parameter of the model: the check reads the literal from src/tcp_ip/stream_follower.cpp, "
         "the harness reports the compiled value and the oracle compares the two on every case",
         "boost::icl::interval_set is the canonical interval list of the C19 model (validated against icl by the printed intervals)",
@@ -659,7 +662,10 @@ def run(chk):
         verd[k] = verd.get(k, 0) + 1
     chk.extra["oracle_verdicts_sample"] = verd
     chk.extra["modelled_not_proved"] = [
-        "recovery mode (Stream::enable_recovery_mode / recovery_mode_handler): outside the model",
+        "recovery mode (Stream::enable_recovery_mode / recovery_mode_handler): modelled (Flow.recEnd / recover), tied by "
+        "correspondence, covered by every configuration-generic theorem and by recovery_skips_hole / recovery_stays_off; the "
+        "oracle has no clause for what the handler does to the data (its deliver clause is switched off while recovery "
+        "mode is configured) and per_flow_delivery_* asks for a flow without a handler (FlowInv.rc)",
         "per_flow_delivery_client/server start from a flow that satisfies FlowInv (out of UNKNOWN, tracker = C06's model): "
         "established by syn_starts_client for the client direction of a SYN-created stream, by attach_starts for both "
         "directions of an attached stream, by flow_step_syn for a server flow whose first segment is its SYN+ACK; a direction "
